@@ -1,19 +1,22 @@
 #!/usr/bin/env python3
 """C15 — merge flattens exactly one level; in is substring / deep-membership test.
 
-  K1  merge: one forward pass over the operand list itself (the iterator derives
-      from the operand-vector parameter, nothing is substituted for it); per
-      operand kind (variant specialisation of the per-operand code): an Array
-      contributes a clone of each of its elements in order (one non-nested pass,
-      the elements' own kinds never inspected), every other kind contributes a
-      clone of the operand itself; merge is not recursive; the result vector is
-      only appended to (no dedup / sort / retain / truncate / insert / remove);
+  K1  merge, read as a *stream term* (rules/x_streams.py — fold + for_each, loops + push / extend, flat_map + collect,
+      slice-view helpers are one representation): the vector it returns is `for each operand x of the operand list
+      itself, in order: what x contributes` and nothing else (one pass, nothing substituted for the operand list, no
+      adaptor that drops / reorders elements, no loop that can stop early); per assumed kind of x (helpers are read
+      under that kind): an Array contributes its elements, every other kind itself — identified up to clone and
+      reference plumbing; merge is not recursive; the result vector is only appended to (no dedup / sort / retain /
+      truncate / insert / remove).  Inspecting more than the outer kind of an operand shows as a contribution that is
+      not one of the two (the former K1.kind-switch is subsumed by K1.contribution);
   K2  in: operand 0 is the needle, operand 1 the haystack; by kind of the
       haystack (and of the needle for strings): Null → constant false; Array →
       membership of the needle among the elements under the membership equality;
       String × String needle → exactly str::contains(haystack, needle) (no other
       path to a boolean); String × other needle → Err; Bool/Number/Object → Err;
-      no byte-length / character-count mix (R-UNITS);
+      no byte-length / character-count mix (R-UNITS); the outcomes are read from path summaries, context-sensitively
+      through private helpers (a helper's answer under the assumed kinds decides `helper(..)?` and Option switches),
+      loops by kind specialisation + the membership-loop reader; an outcome that is not read is UNDECIDED;
   K3  membership equality is not spelling-sensitive (A1): `in` itself never uses
       serde_json's Value/Number equality or slice::contains on values; the
       membership function compares Number×Number exactly (integer pairs as
@@ -21,8 +24,10 @@
       structurally into Array×Array (same length, element-wise) and
       Object×Object (same length, key-wise via Map::get — key order irrelevant),
       and uses plain equality only where no number can hide (different kinds or
-      Null/Bool/String).
-Not decided: that the numeric comparison equals deep numeric equality on all values.
+      Null/Bool/String); every way the code goes on when Map::get answers None (combinator default, match arm,
+      let-else, early return out of a loop) yields false — going round the loop again is a violation.
+Not decided: that the numeric comparison equals deep numeric equality on all values; the sense in which the
+recursive answers are combined (a dropped negation in the element-wise / key-wise comparison is not caught).
 """
 import re
 from .core import (callee_of, callee_path, strip_refs, strip_payload, show_expr, const_value, expr_mentions, op_const)
@@ -92,75 +97,297 @@ def membership_loop(facts, ib, blocks, operand):
     return None
 
 
-def merge_loop_form(ctx, facts, roles, mb, vecp, cfg):
-    """merge written with loops: one outer loop over the operand list itself, one switch on the kind of its element;
-    an Array element contributes a clone of each member through one inner loop over its payload, every other kind
-    a clone of the element.  Returns False when this is not the shape (the adaptor-form clauses then report)."""
-    from . import panic as PN
-    from .core import strip_payload
-    outer = None
-    nexts = {}
-    for (h, bl, srcs) in PN.loops_of(mb):
-        for bi in sorted(bl):
-            t = mb.blocks[bi]["term"]
-            if t["k"] == "Call" and (callee_path(t) or "").endswith("::next"):
-                it = strip_refs(mb.trace(t["args"][0]))
-                while it[0] == "call" and it[1] and re.search(r"IntoIterator>::into_iter$|::iter$|Deref>::deref$", it[1]["path"]):
-                    it = strip_refs(it[2][0])
-                nexts[bi] = it
-                if it == ("arg", vecp):
-                    outer = bi
-    if outer is None:
-        return False
-
-    def is_elem(e, which=None):
-        x = strip_payload(strip_refs(e))
-        return x[0] == "call" and x[1] is not None and x[1]["path"].endswith("::next") and (x[3] == outer if which is None else x[3] == which)
-
-    ctx.ok("K1.one-pass", "merge makes one pass (a loop) over its operands (%s)" % cfg, nontrivial=True)
-    ctx.ok("K1.over-operands", "the pass iterates the operand list itself (%s)" % cfg, nontrivial=True)
-    sws = []
-    for bi in sorted(mb.reachable()):
-        t = mb.blocks[bi]["term"]
-        if t["k"] == "SwitchInt":
-            e = mb.trace(t["discr"])
-            if e[0] == "discr" and e[2] == VALUE:
-                sws.append((bi, is_elem(e[1])))
-    ctx.check(len(sws) == 1 and sws[0][1], "K1.kind-switch", "merge inspects the kind of each operand once (%s)" % cfg, "%d switches on a value's kind in merge (on the operand itself: %s)" % (len(sws), [x[1] for x in sws]), where=mb.where(), fn=mb.key, nontrivial=True)
-    inner_nexts = {bi: it for bi, it in nexts.items() if bi != outer}
+def merge_contributions(ctx, facts, mb, vecp, cfg):
+    """K1 on stream terms (rules/x_streams.py): whatever the spelling — fold + for_each, loops + push / extend,
+    flat_map + collect, helpers that view an operand as a slice — the vector merge returns is read as
+    `for each operand x of the operand list: <what x contributes>`, once per assumed kind of x."""
+    from . import x_streams as XS
+    # read once per assumed kind of the operands (helpers are then read under that kind, too)
+    readings = {v: XS.read_vector(facts, mb, vecp, v) for v in facts.variants(VALUE)}
+    # ---- the pass and what it runs over
+    unknown_src, wrong_src, reordered, passes, shown = [], [], [], [], []
+    for v, (R, terms) in readings.items():
+        for t0 in terms:
+            for t in (t0[1] if t0[0] == "alt" else [t0]):
+                tops = t[1] if t[0] == "seq" else [t]
+                fors = [x for x in tops if x[0] in ("for", "operands", "exit", "adapted", "members", "other")]
+                passes.append(len(fors) if not XS.find(t, "unknown") or fors else None)
+                if R.show(t) not in shown:
+                    shown.append(R.show(t))
+                for x in fors:
+                    while x[0] in ("adapted", "exit"):
+                        reordered.append("%s: %s" % (x[1] if x[0] == "adapted" else "early exit", R.show(x)))
+                        x = x[2] if x[0] == "adapted" else x[1]
+                    S = x[1] if x[0] == "for" else x
+                    if S == ("operands",):
+                        continue
+                    if XS.find(S, "unknown") or S[0] == "unknown":
+                        unknown_src.append(R.show(S))
+                    else:
+                        wrong_src.append(R.show(S))
+    shown = "; ".join(shown)[:300]
+    if any(n is None for n in passes) or not passes:
+        ctx.unread("K1.one-pass", "merge makes one pass over its operands (%s)" % cfg, "the vector merge returns is not read as passes over streams: %s" % shown, where=mb.where(), fn=mb.key)
+    else:
+        ctx.check(all(n <= 1 for n in passes), "K1.one-pass", "merge makes one pass over its operands (%s)" % cfg, "the vector merge returns is built as: %s" % shown, where=mb.where(), fn=mb.key, nontrivial=True)
+    for r_ in sorted(set(reordered)):
+        ctx.fail("K1.append-only", "merge|%s" % r_.split(":")[0], "the elements merge returns go through %s (order / multiplicity would change)" % r_[:200], where=mb.where(), fn=mb.key)
+    if wrong_src:
+        ctx.fail("K1.over-operands", "the pass iterates the operand list itself (%s)" % cfg,
+                 "merge iterates %s instead of its operand list: some operand shapes are rewritten before flattening (more than one level can be spliced)" % "; ".join(sorted(set(wrong_src)))[:200], where=mb.where(), fn=mb.key)
+    elif unknown_src:
+        ctx.unread("K1.over-operands", "the pass iterates the operand list itself (%s)" % cfg, "what merge iterates is not read: %s" % "; ".join(sorted(set(unknown_src)))[:200], where=mb.where(), fn=mb.key)
+    elif passes:
+        ctx.ok("K1.over-operands", "the pass iterates the operand list itself (%s)" % cfg, nontrivial=True)
+    # ---- per kind of operand
     for v in facts.variants(VALUE):
-        restrict = P.specialise_unit(roles, mb.key, lambda e, a, _v=v: _v if (a == VALUE and is_elem(e)) else None)
-        bl = restrict[mb.key]
-        pushed = []
-        for bi in sorted(bl):
-            t = mb.blocks[bi]["term"]
-            if t["k"] == "Call" and callee_path(t) == "std::vec::Vec::<T, A>::push":
-                val = strip_refs(mb.trace(t["args"][1]))
-                src = strip_refs(val[2][0]) if val[0] == "call" and val[1] and val[1]["path"] == CLONE else None
-                pushed.append(src)
-        inner_live = [bi for bi in inner_nexts if bi in bl]
-        # `acc.extend(members.iter().cloned())` / extend_from_slice(members) / append(&mut members.clone()): all members, in order
-        extended = []
-        for bi in sorted(bl):
-            t = mb.blocks[bi]["term"]
-            if t["k"] == "Call" and re.search(r"Vec::<T, A>::(extend|extend_from_slice)$|as std::iter::Extend<.*>>::extend$", callee_path(t) or ""):
-                src = strip_refs(mb.trace(t["args"][1]))
-                plumbing = not expr_mentions(src, lambda y: y[0] == "call" and y[1] is not None and not re.search(r"(::iter|::into_iter|::cloned|::copied|::to_vec|::as_slice|Clone>::clone|Deref>::deref|IntoIterator>::into_iter|::next)$", y[1]["path"]))
-                payload = expr_mentions(src, lambda y: y[0] == "downcast" and y[2] == "Array" and is_elem(y[1]))
-                extended.append(plumbing and payload)
-        if v == "Array" and extended:
-            good = extended == [True] and not pushed and not inner_live
-            what = "all its elements (extend)" if good else "pushes %s, extends %s" % ([show_expr(x)[:50] if x else None for x in pushed], extended)
-        elif v == "Array":
-            good = len(pushed) == 1 and pushed[0] is not None and len(inner_live) == 1 and is_elem(pushed[0], inner_live[0]) \
-                and expr_mentions(inner_nexts[inner_live[0]], lambda y: y[0] == "downcast" and y[2] == "Array" and is_elem(y[1]))
-            what = "a clone of each element" if good else "%s (inner loops: %d)" % ([show_expr(x)[:50] if x else None for x in pushed], len(inner_live))
-        else:
-            good = len(pushed) == 1 and pushed[0] is not None and is_elem(pushed[0]) and not inner_live and not extended
-            what = "a clone of itself" if good else "%s" % [show_expr(x)[:50] if x else None for x in pushed]
-        ctx.check(good, "K1.contribution", "merge: a %s operand contributes %s (%s)" % (v, "its elements" if v == "Array" else "itself", cfg),
-                  "in merge a %s operand contributes %s" % (v, what), where=mb.where(), fn=mb.key, nontrivial=True, sample={"kind": v, "contributes": what})
-    return True
+        Rv, tv = readings[v]
+        tv = [t for t0 in tv for t in (t0[1] if t0[0] == "alt" else [t0])]
+        key = "merge: a %s operand contributes %s (%s)" % (v, "its elements" if v == "Array" else "itself", cfg)
+        per = []        # what one operand contributes, per alternative
+        for t in tv:
+            tops = t[1] if t[0] == "seq" else [t]
+            for x in tops:
+                while x[0] in ("adapted", "exit"):       # reported by K1.append-only
+                    x = x[2] if x[0] == "adapted" else x[1]
+                if x == ("operands",):
+                    per.append(("one", "x"))
+                elif x[0] == "for" and x[1] == ("operands",):
+                    for a in [b_ for a0 in x[3] for b_ in (a0[1] if a0[0] == "alt" else [a0])]:
+                        per.append(("members", "x") if a == ("members", x[2]) else (("one", "x") if a == ("one", x[2]) else a))
+                elif x[0] == "empty":
+                    continue
+                elif x[0] == "for" and tv is not None and XS.find(x[1], "unknown"):
+                    per.append(("unknown", "source"))
+                elif x[0] == "for" or x[0] in ("members", "adapted", "other", "exit"):
+                    continue        # a pass over something else: reported by K1.over-operands
+                else:
+                    per.append(x)
+        want = ("members", "x") if v == "Array" else ("one", "x")
+        shown = " | ".join(sorted({("its elements" if a == ("members", "x") else "itself" if a == ("one", "x") else Rv.show(a)) for a in per})) or "nothing"
+        bad = [a for a in per if a != want]
+        if not per and (wrong_src or unknown_src):
+            continue
+        if bad and all(XS.find(a, "unknown") or a[0] == "unknown" for a in bad):
+            ctx.unread("K1.contribution", key, "what a %s operand contributes is not read: %s" % (v, shown), where=mb.where(), fn=mb.key)
+            continue
+        ctx.check(bool(per) and not bad, "K1.contribution", key, "in merge a %s operand contributes %s" % (v, shown), where=mb.where(), fn=mb.key, nontrivial=True,
+                  sample={"kind": v, "contributes": shown})
+
+
+def in_expected(hv, nv):
+    if hv == "Null":
+        want = "CONST:false"
+    elif hv == "Array":
+        want = "MEMBERSHIP"
+    elif hv == "String":
+        want = "SUBSTRING" if nv == "String" else ("ERR" if nv is not None else "ERR|SUBSTRING")
+    else:
+        want = "ERR"
+    return want, hv + ("×needle %s" % nv if nv else "")
+
+
+def in_outcomes(facts, ib, operand, hv, nv):
+    """K2 on path summaries read context-sensitively through private helpers (rules/x_streams.Reader): every way `in`
+    produces its result when the haystack (operand 1) has kind hv and the needle (operand 0) kind nv (None = any).
+    → (sorted outcome names, membership function key | None), or None when the code has loops (the loop reader decides).
+    Outcomes: ERR, CONST:true/false, SUBSTRING, MEMBERSHIP, SPELLING-MEMBERSHIP, and ?(…) for a value that is not read."""
+    from . import x_streams as XS
+
+    class R_(XS.Reader):
+        def known(self, pe, adt):
+            if adt == VALUE:
+                i = operand(pe)
+                if i == 1:
+                    return hv
+                if i == 0 and nv is not None:
+                    return nv
+            return XS.Reader.known(self, pe, adt)
+    R = R_(facts, ib, None)
+    mem = []
+    looped = []
+
+    def payload_of(e, variant):
+        """`(X as Ok).0` / `(branch(X) as Continue).0` where X is a private helper's answer: the helper's Ok payloads."""
+        x = strip_refs(e)
+        if not (x[0] == "field" and x[2] == 0 and x[1][0] == "downcast" and x[1][2] in ("Ok", "Continue", "Some")):
+            return None
+        src = strip_refs(x[1][1])
+        if src[0] == "call" and src[1] and src[1]["path"].endswith("as std::ops::Try>::branch") and src[2]:
+            src = strip_refs(src[2][0])
+        if src[0] == "call" and src[1] and src[1].get("local"):
+            res = R.call_results(src, src[2])
+            if res is None:
+                return None
+            outs = []
+            for r in res:
+                r = strip_refs(r)
+                if r[0] == "agg" and r[1].get("variant") in ("Ok", "Some") and len(r[2]) == 1:
+                    outs.append(r[2][0])
+                elif r[0] == "agg" and r[1].get("variant") in ("Err", "None"):
+                    continue
+                else:
+                    return None
+            return outs
+        return None
+
+    def boolean(e, depth=0):
+        x = strip_refs(e)
+        if depth > 6:
+            return ["?(deep)"]
+        if x[0] == "phi":
+            return [o for a in x[2] for o in boolean(a, depth + 1)]
+        if x[0] == "const":
+            return ["CONST:%s" % str(const_value(x[1])).lower()]
+        pl = payload_of(x, "Ok")
+        if pl is not None:
+            return [o for a in pl for o in boolean(a, depth + 1)]
+        if x[0] == "call" and x[1]:
+            path = x[1]["path"]
+            if x[1].get("local"):
+                res = R.call_results(x, x[2])
+                if res is None:
+                    looped.append(x[1].get("key"))
+                    return ["?(helper %s)" % x[1].get("key")]
+                return [o for a in res for o in boolean(a, depth + 1)]
+            if path == "core::str::<impl str>::contains" and len(x[2]) == 2:
+                hs = expr_mentions(x[2][0], lambda y: y[0] == "downcast" and y[2] == "String" and operand(y[1]) == 1)
+                ns = expr_mentions(x[2][1], lambda y: y[0] == "downcast" and y[2] == "String" and operand(y[1]) == 0)
+                return ["SUBSTRING" if hs and ns else "SUBSTRING(wrong operands)"]
+            if path == "core::slice::<impl [T]>::contains":
+                return ["SPELLING-MEMBERSHIP"]
+            if re.search(r"(Iterator::|Iterator>::)any$", path) and len(x[2]) == 2:
+                S = R.norm(R.stream(x[2][0]))
+                over = S[0] == "members" and operand(S[1]) == 1
+                var = R.fresh("candidate")
+                res = R.apply(x[2][1], [var])
+                if S[0] == "adapted" and S[2][0] == "members" and operand(S[2][1]) == 1:
+                    return ["MEMBERSHIP-AMONG-%s(elements)" % S[1]]
+                if res is None or not over:
+                    return ["ANY(%s)" % R.show(S)[:40]]
+                outs = []
+                for r in res:
+                    r = strip_refs(r)
+                    if r[0] == "call" and r[1] and (SPELLING_EQ.search(r[1]["path"]) or any(SPELLING_EQ.search(fw.get("path", "")) for fw in (r[1].get("fwd") or []))):
+                        outs.append("SPELLING-MEMBERSHIP")
+                    elif r[0] == "call" and r[1] and r[1].get("local") and len(r[2]) == 2:
+                        a_ = [R.ident(a) for a in r[2]]
+                        if any(a == var for a in a_) and any(operand(a) == 0 for a in a_):
+                            mem.append(r[1]["key"])
+                            outs.append("MEMBERSHIP")
+                        else:
+                            outs.append("ANY(wrong operands)")
+                    else:
+                        outs.append("?(%s)" % show_expr(r)[:40])
+                return outs
+        return ["?(%s)" % show_expr(x)[:40]]
+
+    def value(e, depth=0):
+        x = strip_refs(e)
+        if depth > 6:
+            return ["?(deep)"]
+        if x[0] == "phi":
+            return [o for a in x[2] for o in value(a, depth + 1)]
+        if x[0] == "agg" and x[1].get("variant") == "Err":
+            return ["ERR"]
+        if x[0] == "call" and x[1] and "from_residual" in x[1].get("path", ""):
+            return ["ERR"]
+        if x[0] == "agg" and x[1].get("variant") == "Ok" and len(x[2]) == 1:
+            v_ = strip_refs(x[2][0])
+            if v_[0] == "agg" and v_[1].get("variant") == "Bool" and len(v_[2]) == 1:
+                return boolean(v_[2][0], depth + 1)
+            return ["OK(%s)" % show_expr(v_)[:40]]
+        if x[0] == "call" and x[1] and x[1].get("local"):
+            res = R.call_results(x, x[2])
+            if res is None:
+                looped.append(x[1].get("key"))
+                return ["?(helper %s)" % x[1].get("key")]
+            return [o for a in res for o in value(a, depth + 1)]
+        return ["?(%s)" % show_expr(x)[:40]]
+    w = R.paths_of(ib, {})
+    if w is None or any(p.truncated for p in w.paths):
+        return None
+    outs = []
+    for p in w.paths:
+        outs.extend(value(p.result))
+    if looped:
+        return None
+    ms = sorted(set(mem))
+    return sorted(set(outs)), (ms[0] if len(ms) == 1 else None)
+
+
+def missing_key(ctx, facts, unit, mf, cfg):
+    """K3.missing-key on path summaries + case normal form: in every body of the membership equality that looks a key
+    up in the other object (`Map::get`), every way the code can go on when the lookup answers None — an `unwrap_or` /
+    `map_or` default, an `is_some_and`, a `match` arm, a `let … else`, an early `return` out of a loop — must yield
+    the constant false.  A None case that goes round the loop again (the key is skipped) or yields true is a violation;
+    a None case whose value is not a constant is not read."""
+    from . import pathsum, optnorm
+
+    def is_get(e):
+        e = strip_refs(e)
+        return e[0] == "call" and e[1] is not None and e[1]["path"].startswith("serde_json::Map::<") and e[1]["path"].endswith("::get")
+
+    def known(pe, adt):
+        if adt == VALUE and strip_refs(pe) in (("arg", 1), ("arg", 2)):
+            return "Object"
+        return None
+    lookups = 0
+    decided = 0
+    for b in unit.bodies:
+        if not any(is_get(("call", callee_of(t), [], bi)) for (bi, t) in b.calls() if callee_of(t)):
+            continue
+        lookups += 1
+        w = pathsum.summarize(b, known=known if b.key == mf.key else None, max_paths=3000)
+        if w.overflow or not w.paths:
+            ctx.unread("K3.missing-key", "a key missing from the other object makes the objects different (%s, %s)" % (b.key, cfg), "too many paths", where=b.where(), fn=b.key)
+            continue
+        seen = set()
+        for p in w.paths:
+            if p.truncated or p.result is None:
+                subs = [((), None)]
+            else:
+                subs = optnorm.cases_expr(facts, p.result) or [((), ("unknown",))]
+            for c2, val in subs:
+                conds = dict(p.atoms)
+                feasible = True
+                for k_, v_ in c2:
+                    if k_ in conds and conds[k_] != v_:
+                        feasible = False
+                    conds[k_] = v_
+                if not feasible:
+                    continue
+                for k_, v_ in conds.items():
+                    if k_[0] != "variant" or v_ != "None":
+                        continue
+                    src = w.exprs.get(k_)
+                    if src is None:
+                        src = optnorm.SRC_EXPRS.get(k_)
+                    if src is None or not is_get(src):
+                        continue
+                    key = "a key missing from the other object makes the objects different (%s, %s)" % (b.key, cfg)
+                    if val is None:
+                        out = "goes on with the next key"
+                    else:
+                        x = strip_refs(val)
+                        out = const_value(x[1]) if x[0] == "const" else None
+                    if (key, str(out)) in seen:
+                        continue
+                    seen.add((key, str(out)))
+                    if out is False:
+                        decided += 1
+                        ctx.ok("K3.missing-key", key, nontrivial=True)
+                    elif out is None:
+                        ctx.unread("K3.missing-key", key, "for a key that the other object lacks the membership equality yields %s" % show_expr(val)[:80], where=b.where(), fn=b.key)
+                    else:
+                        ctx.fail("K3.missing-key", key, "for a key that the other object lacks the membership equality %s: objects with different key sets would be the same element" % ("yields %s" % out if val is not None else out), where=b.where(), fn=b.key)
+                        decided += 1
+    if lookups == 0:
+        ctx.fail("K3.missing-key-site", "the key-wise comparison handles a missing key explicitly (%s)" % cfg, "no Map::get in the membership equality: objects are not compared key by key", where=mf.where(), fn=mf.key)
+    elif decided == 0:
+        ctx.unread("K3.missing-key-site", "the key-wise comparison handles a missing key explicitly (%s)" % cfg, "no case of the Map::get lookup answering None was read", where=mf.where(), fn=mf.key)
+    else:
+        ctx.ok("K3.missing-key-site", "the key-wise comparison handles a missing key explicitly (%s)" % cfg)
 
 
 def run(ctx):
@@ -182,60 +409,8 @@ def run(ctx):
         ctx.check(not rec, "K1.not-recursive", "merge does not call itself (%s)" % cfg, "merge is recursive", where=mb.where(), fn=mb.key, nontrivial=True)
         for s in mu.calls(lambda c: MUTATORS.search(c["path"]) is not None):
             ctx.fail("K1.append-only", "merge|%s" % callee_path(s.term).rsplit("::", 1)[1], "merge edits its result with %s (order / multiplicity would change)" % callee_path(s.term), where=s.where(), fn=s.body.key)
-        # the pass over the operands
-        consumers = [s for s in mu.calls_path(r"(Iterator::|Iterator>::)(fold|for_each|try_fold|map|flat_map)$") if s.body.key == mb.key]
-        if not consumers and merge_loop_form(ctx, facts, roles, mb, vecp, cfg):
-            consumers = None
-        if consumers is not None:
-            ctx.check(len(consumers) == 1, "K1.one-pass", "merge makes one pass over its operands (%s)" % cfg, "%d iterator consumers in merge" % len(consumers), where=mb.where(), fn=mb.key, nontrivial=True)
-        for s in consumers or []:
-            it = strip_refs(mb.trace(s.term["args"][0]))
-            while it[0] == "call" and it[1] and re.search(r"IntoIterator>::into_iter$|::iter$|Deref>::deref$", it[1]["path"]):
-                it = strip_refs(it[2][0])
-            ctx.check(it == ("arg", vecp), "K1.over-operands", "the pass iterates the operand list itself (%s)" % cfg,
-                      "merge iterates %s instead of its operand list: some operand shapes are rewritten before flattening (more than one level can be spliced)" % show_expr(it)[:100], where=s.where(), fn=mb.key, nontrivial=True)
-        # per operand kind
-        hosts = [] if consumers is None else [(b, sc) for b in mu.bodies for sc in kind_of_param_switches(b) if b.key != mb.key or True]
-        hosts = [(b, sc) for (b, sc) in hosts if sc[0] in ("arg", "carg") or sc[0] == "arg"]
-        if consumers is not None:
-            ctx.check(len(hosts) == 1, "K1.kind-switch", "merge inspects the kind of each operand once (%s)" % cfg, "%d switches on a value's kind in merge — more than the outer kind of an operand is inspected" % len(hosts), where=mb.where(), fn=mb.key, nontrivial=True)
-        for (hb, sc) in hosts[:1]:
-            sc_x = strip_refs(hb._xsub(sc, 0))
-            for v in facts.variants(VALUE):
-                restrict = P.specialise_unit(roles, hb.key, lambda e, a, _v=v, _sc=sc: _v if (a == VALUE and e == _sc) else None)
-                pushed = []
-                iters = 0
-                for k, bl in restrict.items():
-                    bb = facts.body(k)
-                    for bi in sorted(bl):
-                        t = bb.blocks[bi]["term"]
-                        if t["k"] != "Call" or not callee_of(t):
-                            continue
-                        p = callee_of(t)["path"]
-                        if p == "std::vec::Vec::<T, A>::push":
-                            val = strip_refs(bb.xtrace(t["args"][1]))
-                            src = strip_refs(val[2][0]) if val[0] == "call" and val[1] and val[1]["path"] == CLONE else None
-                            pushed.append((bb, src))
-                        if re.search(r"(Iterator::|Iterator>::)(for_each|fold|map)$", p) and bb.key != mb.key:
-                            iters += 1
-                        if re.search(r"Vec::<T, A>::(extend|extend_from_slice|append)$|as std::iter::Extend<.*>>::extend$", p):
-                            src = strip_refs(bb.xtrace(t["args"][1]))
-                            x = src
-                            plumbing_only = True
-                            while x[0] == "call" and x[1]:
-                                if not re.search(r"::(iter|cloned|copied|into_iter|deref|to_vec|clone)$", x[1]["path"]):
-                                    plumbing_only = False
-                                x = strip_refs(x[2][0])
-                            from_payload = x[0] == "field" and x[1][0] == "downcast" and x[1][2] == "Array"
-                            pushed.append((bb, ("extend", src) if (plumbing_only and from_payload) else ("extend?", src)))
-                if v == "Array":
-                    good = len(pushed) == 1 and ((pushed[0][1] is not None and pushed[0][1][0] == "carg" and pushed[0][0].key != hb.key and iters == 1) or (pushed[0][1] is not None and pushed[0][1][0] == "extend"))
-                    what = "a clone of each element" if good else "%s (inner passes: %d)" % ([show_expr(x[1])[:50] if x[1] else None for x in pushed], iters)
-                else:
-                    good = len(pushed) == 1 and pushed[0][1] in (sc, sc_x)
-                    what = "a clone of itself" if good else "%s" % [show_expr(x[1])[:50] if x[1] else None for x in pushed]
-                ctx.check(good, "K1.contribution", "merge: a %s operand contributes %s (%s)" % (v, "its elements" if v == "Array" else "itself", cfg),
-                          "in merge a %s operand contributes %s" % (v, what), where=hb.where(), fn=hb.key, nontrivial=True, sample={"kind": v, "contributes": what})
+        # the pass over the operands and the contribution of each kind of operand
+        merge_contributions(ctx, facts, mb, vecp, cfg)
 
         # ================= in
         ib, ie = roles.fn_of("in")
@@ -259,9 +434,10 @@ def run(ctx):
                     sw[operand(e[1])] = strip_refs(e[1])
         ctx.check(1 in sw, "K2.haystack", "in switches on the kind of operand 1, the haystack (%s)" % cfg, "in switches on operands %s" % sorted(sw), where=ib.where(), fn=ib.key, nontrivial=True)
         membership = None
+        array_unread = False
         if 1 in sw:
             for hv in facts.variants(VALUE):
-                needle_kinds = facts.variants(VALUE) if (hv == "String" and 0 in sw) else [None]
+                needle_kinds = facts.variants(VALUE) if hv == "String" else [None]
                 for nv in needle_kinds:
                     def assume(e, a, _hv=hv, _nv=nv):
                         if a != VALUE:
@@ -271,6 +447,19 @@ def run(ctx):
                         if operand(e) == 0 and _nv is not None:
                             return _nv
                         return None
+                    read = in_outcomes(facts, ib, operand, hv, nv)
+                    if read is not None:
+                        got = "|".join(read[0])
+                        membership = read[1] or membership
+                        want, label = in_expected(hv, nv)
+                        if "?" in got or "ANY(" in got or "OK(" in got:
+                            array_unread = array_unread or hv == "Array"
+                            ctx.unread("K2.case", "in: haystack %s ⇒ %s (%s)" % (label, want, cfg), "with a %s haystack `in` yields %s (not read); expected %s" % (label, got, want), where=ib.where(), fn=ib.key)
+                        else:
+                            ctx.check(got == want, "K2.case", "in: haystack %s ⇒ %s (%s)" % (label, want, cfg), "with a %s haystack `in` yields %s; expected %s" % (label, got, want), where=ib.where(), fn=ib.key, nontrivial=True,
+                                      sample={"haystack": label, "outcome": got})
+                        continue
+                    # code with loops: kind specialisation + the loop reader
                     restrict = P.specialise_unit(roles, ib.key, assume)
                     blocks = restrict[ib.key]
                     with ib.restricted(blocks):
@@ -322,15 +511,7 @@ def run(ctx):
                             membership = mem
                             kinds = ["MEMBERSHIP"]
                     got = "|".join(sorted(set(kinds)))
-                    if hv == "Null":
-                        want = "CONST:false"
-                    elif hv == "Array":
-                        want = "MEMBERSHIP"
-                    elif hv == "String":
-                        want = "SUBSTRING" if nv in (None, "String") and nv == "String" else ("ERR" if nv is not None else "ERR|SUBSTRING")
-                    else:
-                        want = "ERR"
-                    label = hv + ("×needle %s" % nv if nv else "")
+                    want, label = in_expected(hv, nv)
                     ctx.check(got == want, "K2.case", "in: haystack %s ⇒ %s (%s)" % (label, want, cfg), "with a %s haystack `in` yields %s; expected %s" % (label, got, want), where=ib.where(), fn=ib.key, nontrivial=True,
                               sample={"haystack": label, "outcome": got})
         ures = U.analyse(facts, Unit(roles, ib.key, extended=True).bodies)
@@ -341,7 +522,10 @@ def run(ctx):
         # ================= membership equality
         for s in iu.calls(lambda c: SPELLING_EQ.search(c["path"]) is not None):
             ctx.fail("K3.spelling-sensitive", "in|%s" % callee_path(s.term).split(" as ")[0].strip("<")[:40], "`in` compares values with %s, which distinguishes 2 from 2.0" % callee_path(s.term), where=s.where(), fn=s.body.key)
-        ctx.check(membership is not None, "K3.membership-fn", "array membership uses a dedicated equality of the crate (%s)" % cfg, "no membership equality function identified", where=ib.where(), fn=ib.key, nontrivial=True)
+        if membership is None and array_unread:
+            ctx.unread("K3.membership-fn", "array membership uses a dedicated equality of the crate (%s)" % cfg, "the Array case of `in` is not read", where=ib.where(), fn=ib.key)
+        else:
+            ctx.check(membership is not None, "K3.membership-fn", "array membership uses a dedicated equality of the crate (%s)" % cfg, "no membership equality function identified", where=ib.where(), fn=ib.key, nontrivial=True)
         if membership is not None:
             mf = facts.body(membership)
             s2n = strnum.find_str_to_number(facts)
@@ -365,17 +549,6 @@ def run(ctx):
                           sample={"pair": "%s,%s" % (a, b), "outcome": o.kind} if a == b else None)
             # Object×Object is key-wise (Map::get), Array×Array element-wise with equal lengths
             mu2 = Unit(roles, mf.key)
-            nmk = 0
-            for sx in mu2.calls_path(r"^std::option::Option::<T>::(unwrap_or|map_or|is_some_and)$"):
-                recv = sx.body.xtrace(sx.term["args"][0])
-                if not expr_mentions(recv, lambda y: y[0] == "call" and y[1] and y[1]["path"].startswith("serde_json::Map::<") and y[1]["path"].endswith("::get")):
-                    continue
-                nmk += 1
-                if callee_path(sx.term).endswith("is_some_and"):
-                    continue
-                dflt = strip_refs(sx.body.xtrace(sx.term["args"][1]))
-                ctx.check(dflt[0] == "const" and const_value(dflt[1]) is False, "K3.missing-key", "a key missing from the other object makes the objects different (%s, %s)" % (sx.where(), cfg),
-                          "for a key that the other object lacks the membership equality yields %s: objects with different key sets would be the same element" % show_expr(dflt), where=sx.where(), fn=sx.body.key, nontrivial=True)
-            ctx.check(nmk >= 1, "K3.missing-key-site", "the key-wise comparison handles a missing key explicitly (%s)" % cfg, "no Option fallback on Map::get in the membership equality", where=mf.where(), fn=mf.key)
+            missing_key(ctx, facts, mu2, mf, cfg)
             paths = [callee_path(s.term) for s in mu2.calls()]
             ctx.check(any(p.startswith("serde_json::Map::<") and p.endswith("::get") for p in paths) and sum(1 for p in paths if p.endswith("::len")) >= 4, "K3.structure", "objects compared key-wise via Map::get, lengths compared (%s)" % cfg, "membership equality calls: %s" % sorted(set(p.rsplit("::", 1)[1] for p in paths)), where=mf.where(), fn=mf.key)
